@@ -201,8 +201,34 @@ def _reader_case(draw):
             "ro": draw(st.sampled_from(["", "", "d", "m", "dm"]))}
 
 
+@st.composite
+def _long_case(draw):
+    """A chunk as long as real ones (2^16 .. 2^21 + samples, 1-3 channels) with a few saturated runs by construction, some of
+    them on and next to multiples of powers of two and of ten: where any internal block or batch size would put a seam."""
+    p = draw(st.sampled_from([16, 17, 18, 19, 20, 20, 21, 21]))
+    ns = (1 << p) + draw(st.one_of(st.integers(-3, 3), st.integers(1, 5000), st.integers(1, 1 << p)))
+    ns = min(ns, (1 << 21) + 5000)
+    starts = []
+    for _ in range(draw(st.integers(1, 5))):
+        # a seam candidate: a multiple of a power of two within three octaves of the length, or of a power of ten; the run
+        # starts on it, just before it (so that it ends on the last sample before the seam or straddles it) or just after
+        q = draw(st.integers(max(10, p - 3), p))
+        base = draw(st.sampled_from([1 << q, 1 << q, 10 ** draw(st.integers(4, 6)), 3 * (1 << (q - 2))]))
+        starts.append(base * draw(st.integers(1, 3)) + draw(st.sampled_from([0, 0, -1, -1, 1, -2])))
+    # and always one run at one of the large round numbers below the length
+    major = [v for v in (1 << 16, 1 << 17, 1 << 18, 1 << 19, 1 << 20, 1 << 21, 10 ** 5, 10 ** 6, 2 * 10 ** 6) if v < ns - 1]
+    if major:
+        starts.append(draw(st.sampled_from(major[-4:])) + draw(st.sampled_from([0, -1, -1, 1, -2])))
+    for _ in range(draw(st.integers(0, 4))):
+        starts.append(draw(st.integers(0, ns - 1)))
+    runs = sorted({(a, draw(st.sampled_from([1, 1, 2, 3, 9]))) for a in starts if 0 <= a < ns})
+    return {"kind": "long", "ns": ns, "runs": [list(r) for r in runs], "via": draw(st.sampled_from(["v", "v", "d"])),
+            "M": draw(st.sampled_from([1, 3, 7, 7, 31])), "dtype": draw(st.sampled_from(["f4", "f8"])),
+            "nc": draw(st.sampled_from([1, 3])), "form": draw(st.sampled_from(["default", "kw"]))}
+
+
 def strategy(tier):
-    return weighted((9, _case()), (1, _reader_case()))
+    return weighted((30, _case()), (3, _reader_case()), (1, _long_case()))
 
 
 # ------------------------------------------------------------------------------------------------------------------
@@ -230,18 +256,14 @@ def _mute_reference(flags, m):
 def _dist_to_flag(flags):
     """Distance of every sample to the nearest flagged sample (inf when there is none)."""
     ns = len(flags)
-    d = np.full(ns, np.inf)
-    last = -np.inf
-    for i in range(ns):
-        if flags[i]:
-            last = i
-        d[i] = i - last
-    nxt = np.inf
-    for i in range(ns - 1, -1, -1):
-        if flags[i]:
-            nxt = i
-        d[i] = min(d[i], nxt - i)
-    return d
+    idx = np.flatnonzero(flags)
+    if idx.size == 0:
+        return np.full(ns, np.inf)
+    pos = np.arange(ns)
+    j = np.searchsorted(idx, pos, side="right")          # number of flagged samples at or before pos
+    left = np.where(j > 0, pos - idx[np.maximum(j - 1, 0)], np.inf)
+    right = np.where(j < idx.size, idx[np.minimum(j, idx.size - 1)] - pos, np.inf)
+    return np.minimum(left, right)
 
 
 def _k0_from_p(p, nc):
@@ -878,9 +900,57 @@ def _run_reader(case, ctx):
             _repeat_calls(ctx, "C16.saturation", call, ncalls, r[0], r[1], np.ones(ns, bool), exp_flags, intact)
 
 
+def _run_long(case, ctx):
+    ns, m, via, nc = case["ns"], case["M"], case["via"], case["nc"]
+    npdt = np.float32 if case["dtype"] == "f4" else np.float64
+    flags = np.zeros(ns, dtype=bool)
+    for a, n in case["runs"]:
+        flags[a:a + n] = True
+    sat = sut.voltage().saturation
+    if via == "v":
+        if nc == 3:
+            x, kw = _canonical(flags)
+            x = x.astype(npdt)
+        else:
+            x = np.where(flags, npdt(-2.0), npdt(0.5))[np.newaxis, :].astype(npdt)
+            kw = dict(max_voltage=1.0, v_per_sec=1e12, fs=1.0, proportion=0.5)
+    else:
+        # staircase: a step of 2 into the next sample exceeds the limit of 1 per sample, a step of 2^-8 does not; the slew
+        # flag belongs to the sample the step starts from, and the last sample has no next one
+        flags[-1] = False
+        inc = np.where(flags[:-1], 2.0, 2.0 ** -8)
+        inc[1::2] *= -1         # up and down: the levels stay small enough for float32 to hold every one exactly
+        x = np.r_[0.0, np.cumsum(inc)][np.newaxis, :]
+        if nc == 3:
+            x = np.vstack([x, -x, np.zeros_like(x)])
+        x = x.astype(npdt)
+        kw = dict(max_voltage=1e9, v_per_sec=1.0 / 30000, fs=30000, proportion=0.5)
+    ctx.label("long", "long_" + via, "long_2^%d" % int(np.log2(ns)), "long_nc%d" % nc, "long_" + case["dtype"])
+    st_ = np.array([a for a, _ in case["runs"]], dtype=np.int64)
+    if st_.size and (np.any((st_ & (st_ - 1)) == 0) or np.any(st_ % 10000 == 0)):
+        ctx.label("long_run_on_round_sample")
+    ctx.nontrivial = bool(flags.any())
+    x0 = x.copy()
+    if case["form"] == "default" and m == 7:
+        r = ctx.call("C16.call", sat, x, **kw)     # mute_window_samples defaults to 7
+    else:
+        r = ctx.call("C16.call", sat, x, mute_window_samples=m, **kw)
+    if r is ctx.CRASH or not _check_types(ctx, r, ns):
+        return
+    got, mute = r
+    ctx.check(np.array_equal(x, x0), "C16.args_modified", "the long data array handed to saturation() was modified")
+    if not ctx.check(np.array_equal(got, flags), "C16.flags",
+                     lambda: (f"{nc}-channel recording of {ns} samples ({via}): flags at "
+                              f"{np.flatnonzero(got)[:12].tolist()} expected {np.flatnonzero(flags)[:12].tolist()}")):
+        return
+    _check_mute(ctx, got, mute, m)
+
+
 def run_case(case, ctx):
     if case.get("kind") == "pattern":
         _run_pattern(case, ctx)
+    elif case.get("kind") == "long":
+        _run_long(case, ctx)
     elif case.get("kind") == "reader":
         _run_reader(case, ctx)
     else:
